@@ -300,3 +300,8 @@ impl ZmijBuffer {
         ensures r@ == zmij_text(f), all_ascii(r@), r@.len() < usize::MAX,
     { unimplemented!() }
 }
+
+// ---- SpaceAfter: the wrapped value is serialized by generic serde code; opaque here (it may do anything to the serializer) ----
+#[verifier::external_body] pub struct SerVal { _p: () }
+#[verifier::external_body]
+fn ser_value<'a>(v: SerVal, ser: &mut YamlSerializer<'a>) -> (r: Result<(), SerError>) { unimplemented!() }
